@@ -95,6 +95,15 @@ def run(F, rep, tier):
                         probs.append("appends to its output with `%s` without clearing it first" % m)
                 elif r is not None and r != "out" and not str(r).startswith("out"):
                     probs.append("mutates `%s` (not its output) with %s" % (r, m))
+            elif e.kind == "inplace":
+                r = root_of(e.target)
+                m = e.value[1] if isinstance(e.value, tuple) and e.value[0] == "call" else "?"
+                if r == "out" or str(r).startswith("out"):
+                    overwritten = any(p is not e and p.kind == "write" and root_of(p.target) == r and k.effects.index(p) < k.effects.index(e) and "out" not in roots_in(p.value) for p in k.effects)
+                    if not overwritten:
+                        probs.append("transforms its output in place with `%s(&mut out)`: the value left by the previous evaluation is the input of the next one" % m)
+                elif r is not None:
+                    probs.append("mutates `%s` (not its output) in place with %s" % (r, m))
             elif e.kind == "resize":
                 rep.note("shape_changing_solve", name)
         rep.check(not probs, "C19-R2", name if not probs else "%s:%s" % (name, re.sub(r"[^a-z0-9]+", "-", probs[0].lower())[:60]),
